@@ -799,6 +799,9 @@ def h2_scenarios(tier):
     s += [("refuse", 0), ("stall", 0), ("stall_after", 65), ("reset_at", 0), ("reset_at", 65), ("garbage", 0),
           ("chunked_close_at", 60), ("chunked_close_at", len(HEAD_CH + CHUNKED)), ("close_delim_at", 50),
           ("close_delim_at", len(HEAD_CD + BODY)), ("nobackend", 0), ("nohost", 0)]
+    # the faulty stream on a scripted h2c backend (harness/src/h2bb.rs h2c_fault_backend): faults before any
+    # response byte, and after HEADERS 200 (content-length 3000) + 1000 bytes of DATA
+    s += [("h2c_" + f, 0) for f in ("rst_first", "refused", "goaway_first", "close_first", "rst_mid", "close_mid", "stall_mid", "goaway_mid")]
     if tier != "quick":
         s += [("close_at", k) for k in range(1, len(HEAD_CL + BODY), 4)]
         s += [("reset_at", k) for k in range(3, len(HEAD_CL + BODY), 7)]
@@ -852,9 +855,19 @@ def model_predictions_h2(schedules, work):
 
 def h2_stage(tier, work):
     scns = h2_scenarios(tier)
+    H2C_BASE = {"rst_first": ("close_at", 0), "refused": ("close_at", 0), "goaway_first": ("close_at", 0), "close_first": ("close_at", 0),
+                "rst_mid": ("close_at", 70), "close_mid": ("close_at", 70), "stall_mid": ("stall_after", 65),
+                "goaway_mid": ("close_at", len(HEAD_CL + BODY))}
     flat, index = [], []
     for kind, k in scns:
-        sch, blen = predict_inputs(kind, k)
+        if kind.startswith("h2c_"):
+            # the automaton's inputs for the same fault shape (lost before any response byte / lost or silent
+            # after the head and part of the body / graceful GOAWAY with the body completed)
+            bk, bkk = H2C_BASE[kind[4:]]
+            sch, _ = predict_inputs(bk, bkk)
+            blen = 3000 if kind == "h2c_goaway_mid" else None
+        else:
+            sch, blen = predict_inputs(kind, k)
         index.append((len(flat), len(sch), blen))
         flat += sch
     preds = model_predictions_h2(flat, work)
@@ -880,6 +893,12 @@ def h2_stage(tier, work):
             got = classify_h2(d)
             start, n, blen = index[i]
             want = sorted(set(classify_events(p) for p in preds[start:start + n]))
+            if kind.startswith("h2c_") and kind.endswith("_first"):
+                # a stream the backend reset / refused before answering may also be reset toward the client
+                # (RST_STREAM is the explicit abort of an H2 frontend); never a clean 200
+                want = sorted(set(want) | {"abort", "default 503"})
+            if kind in ("h2c_rst_mid", "h2c_close_mid", "h2c_stall_mid") and d.get("body", 0) > 1000:
+                bad.append((i, "bb2-body", "h2 %s: %s body bytes reached the client, the backend sent 1000" % (kind, d.get("body"))))
             if d.get("code") == 9999:
                 bad.append((i, "bb2-two-answers", "h2 %s %d: frames follow the end of the stream" % (kind, k)))
             if got == "hang":
